@@ -46,6 +46,7 @@ theorem thenStart_inv (s : S) (d0 : Nat) (st' : St) (h : Inv s) (h2 : inflight s
     exact pollSink_inv _ d0 (inv_restate s' st' h1 (by simp [hi', inflight]) h2)
   | pending => simpa using h1
   | panic => simpa using h1
+  | err => simpa using h1
 
 theorem step_inv (s : S) (c : Call) (h : Inv s) : Inv (step s c).1 := by
   cases c with
@@ -56,6 +57,9 @@ theorem step_inv (s : S) (c : Call) (h : Inv s) : Inv (step s c).1 := by
     · exact pollSink_inv s d h
   | send f =>
     simp only [step, startSend]
+    split <;> simp_all [Inv, inflight]
+  | sendFail =>
+    simp only [step, startSendFail]
     split <;> simp_all [Inv, inflight]
   | flush d =>
     simp only [step, pollFlush]
@@ -124,6 +128,7 @@ theorem thenStart_flush_delivers (s : S) (d0 : Nat) (h : Inv s)
     exact flush_future_delivers s' d0 none h1 (by simp [hi', inflight]) hr
   | pending => simp [hp] at hr
   | panic => simp [hp] at hr
+  | err => simp [hp] at hr
 
 theorem pollSink_shutdowns (s : S) (d0 : Nat) (h : ∀ d, s.st ≠ .closing d) :
     (pollSink s d0).1.io.shutdowns = s.io.shutdowns := by
@@ -150,6 +155,7 @@ theorem thenStart_close_delivers (s : S) (d0 : Nat) (h : Inv s) (hc : ∀ d, s.s
     exact this
   | pending => simp [hp] at hr
   | panic => simp [hp] at hr
+  | err => simp [hp] at hr
 
 theorem flush_ready_delivers (s : S) (d0 : Nat) (h : Inv s)
     (hr : (pollFlush s d0).2 = .ready) : Delivered (pollFlush s d0).1 := by
@@ -254,6 +260,7 @@ theorem thenStart_pending (s : S) (d0 : Nat) (st' : St)
     simp only [hp] at hr ⊢
     exact ⟨(hp1 rfl).1, trivial, trivial⟩
   | panic => simp [hp] at hr
+  | err => simp [hp] at hr
 
 /-- **`poll_flush` terminates**: a `Pending` answer strictly decreases the budget, so a caller that
     keeps polling (offering `d0` each time) gets `Ready` after at most `flushBudget s d0` `Pending`s. -/
@@ -341,6 +348,7 @@ theorem thenStart_no_panic (s : S) (d0 : Nat) (st' : St) : (thenStart s d0 st').
   | ready => simpa using pollSink_no_panic _ d0
   | pending => simp
   | panic => simp at h0
+  | err => simp
 
 /-- `poll_flush` panics only in the documented case (the sink is closing) -/
 theorem flush_no_panic_unless_closing (s : S) (d0 : Nat) (h : ∀ d, s.st ≠ .closing d) :
@@ -376,6 +384,13 @@ theorem ready_then_send_ok (s : S) (d0 : Nat) (f : Bytes) (h : (pollReady s d0).
   · rename_i hs; simp [startSend, hs]
   · have := pollSink_ready_idle s d0 h
     simp [startSend, this]
+
+/-- **a refused item leaves no trace**: neither the bytes the writer has seen or will see nor the
+    accepted stream change, whatever the codec had already put into the write buffer -/
+theorem refused_item_leaves_no_trace (s : S) :
+    (startSendFail s).1.io = s.io ∧ (startSendFail s).1.sent = s.sent ∧
+      inflight (startSendFail s).1.st = inflight s.st := by
+  unfold startSendFail; split <;> simp_all [inflight]
 
 example :
     let r := run step {} [.send [1, 2], .flush 1, .flush 1, .flush 1, .send [3], .close 0]
